@@ -21,7 +21,7 @@ EXTRA = {
     "C01": SPAN + "; " + NESTED + "; the public Lexer on un-normalised text (every string over Sigma_c^<=3 containing a lone CR x 28 dialects); every alphabet "
     "character arriving as template OUTPUT (context / bind-parameter value) x 4 shapes x {jinja, python, placeholder}.",
     "C02": SPAN + "; " + LOOP + "; a missing tree is accepted only for unbalanced brackets and depth/node limits.",
-    "C03": SPAN + "; " + LOOP + ".",
+    "C03": SPAN + "; " + LOOP + "; every dialect fixture up to 4 000 B (thorough: every fixture, 2 249) in its own dialect.",
     "C04": "Jinja " + SPAN + " (parse, lint, fix); EVERY max_parse_depth in 1..140 x 3 small files x {parse, lint, fix}; large_file_skip_char_limit in {5, 16} x 4 "
     "templaters x 3 inputs x {parse, lint, fix, API lint/fix/parse}; files without any code token (comment-only / blank / whitespace-only) around max_parse_nodes.",
     "C05": "every assignment of <= 2 enumerated options of every rule (36 rules with options) x that rule's YAML strings and the " + GLUE + ", that rule alone, lint + fix.",
